@@ -26,6 +26,7 @@ RULE = (
     "Brooks-Corey sets; tables without positive mobility and storage derivative are discarded). "
     "Non-trivial = at least 2 steps, positive drawdown and one of: p_f/p_i > 0.9, a step with mesh ratio > 100, a "
     "schedule with >= 2 distinct values, relaxation bound < 1e-3 of the drawdown. Distinct = hash of the case record."
+    " One case in nine reaches the simulation through a copy.copy / deepcopy / pickle round trip of the fluid or a deepcopy of the reservoir; one single-phase case in six uses a subclass that overrides the documented alpha_scaled hook (table diffusivity times exp(-gamma drawdown)) and inherits simulate."
 )
 ASSUMPTIONS = [
     "rounding-level tolerance on field values: 1e-9 |m_i| + 1e-6 (m_i - min m_f)",
@@ -46,8 +47,8 @@ CLASSES = ("single", "single", "single", "single", "single", "ideal", "ideal", "
 
 def strategy(tier):
     if tier == "quick":
-        return flowcase.sim_case(nx_max=400, max_steps=160, table_nmax=120, classes=CLASSES)
-    return flowcase.sim_case(nx_max=400, max_steps=1500, table_nmax=400, classes=CLASSES)
+        return flowcase.sim_case(nx_max=400, max_steps=160, table_nmax=120, classes=CLASSES, subclasses=True)
+    return flowcase.sim_case(nx_max=400, max_steps=1500, table_nmax=400, classes=CLASSES, subclasses=True)
 
 
 def a_min_scaled(r: flowcase.Run):
@@ -57,6 +58,13 @@ def a_min_scaled(r: flowcase.Run):
     ms = np.asarray(r.fluid.pvt_props["m-scaled"], float)
     lo, hi = float(np.min(r.m_f)), r.m_i
     pts = np.concatenate([[lo, hi], ms[(ms > lo) & (ms < hi)]])
+    gamma = r.case.get("subclass_gamma")
+    if gamma:
+        # a subclass multiplies the table's diffusivity by exp(-gamma * drawdown) >= exp(-gamma): a lower bound of the
+        # product is the table's minimum (the library's own hook, called on the base class) times exp(-gamma)
+        from bluebonnet.flow import SinglePhaseReservoir
+
+        return float(np.min(np.asarray(SinglePhaseReservoir.alpha_scaled(r.res, pts), float))) * float(np.exp(-gamma))
     return float(np.min(r.alpha_scaled(pts)))
 
 
